@@ -31,6 +31,7 @@ type FuncResult struct {
 	ParamNames []string
 	ParamVals  []SVal
 	ResultVals []SVal
+	FreeResults []SVal
 	PkgPath    string
 	RecvPtr    bool
 	HasRecv    bool
@@ -62,6 +63,7 @@ func (e *Engine) genVC(fn *ssa.Function, con *Contract, prop string) (res *FuncR
 		res.ParamVals = append(res.ParamVals, vc.vals[p])
 	}
 	res.ResultVals = vc.mergedResults
+	res.FreeResults = vc.freeResults
 	if fn.Pkg != nil {
 		res.PkgPath = fn.Pkg.Pkg.Path()
 	}
